@@ -14,10 +14,15 @@ pub struct Hs {
     pub outgoing: bool,
     /// Single-bit corruption of the info-hash used by the `HS:hash<bit>` events of this scenario.
     pub bits: Vec<usize>,
+    /// A second connection D (an honest seeder) completes pieces meanwhile (event Dp): the manager
+    /// then announces them to every connection task, handshaken or not. The client owns nothing at
+    /// the start in this variant.
+    pub downloader: bool,
 }
 
 #[derive(Default)]
 pub struct Mon {
+    pub d_answered: usize,
     /// Every byte fed so far; handshakes are recognised by the reference stream decoder, so a
     /// handshake that arrives misaligned (after a truncated one) does not count.
     pub fed: Vec<u8>,
@@ -41,6 +46,10 @@ impl Hs {
         }
         if self.outgoing {
             v.push("HS:otherid".into());
+        }
+        if self.downloader {
+            v.extend(["KeepAlive", "Interested", "Have"].iter().map(|s| s.to_string()));
+            return v;
         }
         v.extend(["HS:pstr", "HS:pstrlen", "HS:trunc"].iter().map(|s| s.to_string()));
         v.extend(PLAIN.iter().map(|s| s.to_string()));
@@ -86,18 +95,37 @@ fn event_bytes(w: &World, sym: &str) -> Vec<u8> {
 impl Scenario for Hs {
     type Mon = Mon;
     fn name(&self) -> String {
-        format!("handshake-{}-bits{:?}", if self.outgoing { "outgoing" } else { "incoming" }, self.bits)
+        format!("handshake-{}-bits{:?}{}", if self.outgoing { "outgoing" } else { "incoming" }, self.bits, if self.downloader { "-while-downloading" } else { "" })
     }
     fn cfg(&self) -> WorldCfg {
+        if self.downloader {
+            return WorldCfg { torrent: torrent(), have: vec![], peers: vec![peer_cfg(0, self.outgoing), peer_cfg(1, true)], gated: false, stale: vec![] };
+        }
         WorldCfg { torrent: torrent(), have: vec![0, 1], peers: vec![peer_cfg(0, self.outgoing)], gated: false, stale: vec![] }
     }
-    fn enabled(&self, w: &World, _mon: &Mon, _depth: usize) -> Vec<String> {
-        if w.peers[0].ended.get() {
+    fn setup(&self, w: &mut World, _mon: &mut Mon) {
+        if self.downloader {
+            let t = w.t.clone();
+            let id = w.peers[1].cfg.id;
+            w.feed(1, &[refwire::handshake(t.meta.info_hash(), &id), Msg::Bitfield(vec![0xc0]), Msg::Unchoke]);
+        }
+    }
+    fn enabled(&self, w: &World, mon: &Mon, _depth: usize) -> Vec<String> {
+        let mut v = if w.peers[0].ended.get() { vec![] } else { self.symbols() };
+        if self.downloader && w.peers[1].msgs.iter().filter(|m| matches!(m, Msg::Request(..))).count() > mon.d_answered {
+            v.push("Dp".to_string());
+        }
+        v
+    }
+    fn concretize(&self, w: &World, mon: &Mon, sym: &str) -> Vec<Ev> {
+        if sym == "Dp" {
+            let req = w.peers[1].msgs.iter().filter(|m| matches!(m, Msg::Request(..))).nth(mon.d_answered).cloned();
+            if let Some(Msg::Request(i, b, l)) = req {
+                let data = w.t.pieces[i as usize][b as usize..(b + l) as usize].to_vec();
+                return vec![Ev::Feed(1, refwire::encode(&Msg::Piece(i, b, data)))];
+            }
             return vec![];
         }
-        self.symbols()
-    }
-    fn concretize(&self, w: &World, _mon: &Mon, sym: &str) -> Vec<Ev> {
         vec![Ev::Feed(0, event_bytes(w, sym))]
     }
     fn check(&self, w: &World, mon: &mut Mon, last: Option<&str>) -> Option<(&'static str, String)> {
@@ -113,7 +141,10 @@ impl Scenario for Hs {
         // a handshake only counts when the connection is still at a message boundary; the harness
         // knows that from the handler's own buffer being empty before the step (conn_buffer_len is
         // part of the state), approximated here by: no truncated handshake was fed before
-        if let Some(sym) = last {
+        if last == Some("Dp") {
+            mon.d_answered += 1;
+        }
+        if let Some(sym) = last.filter(|s| *s != "Dp") {
             mon.fed.extend(event_bytes(w, sym));
             let (decoded, _, _) = refwire::decode_stream(&mon.fed);
             let n_before = decoded.len();
@@ -172,15 +203,20 @@ impl Scenario for Hs {
         None
     }
     fn key(&self, w: &World, mon: &Mon) -> String {
-        format!("{} v={} r={:?} n={}", w.default_key(), mon.valid_hs_fed, mon.rejected_at.is_some(), w.peers[0].msgs.len())
+        format!("{} v={} r={:?} n={} d={}", w.default_key(), mon.valid_hs_fed, mon.rejected_at.is_some(), w.peers[0].msgs.len(), mon.d_answered)
     }
 }
 
 pub fn scenarios(thorough: bool) -> Vec<Hs> {
-    let mut v = vec![Hs { outgoing: true, bits: vec![0, 159] }, Hs { outgoing: false, bits: vec![0, 159] }];
+    let mut v = vec![
+        Hs { outgoing: true, bits: vec![0, 159], downloader: false },
+        Hs { outgoing: false, bits: vec![0, 159], downloader: false },
+        Hs { outgoing: false, bits: vec![0], downloader: true },
+        Hs { outgoing: true, bits: vec![0], downloader: true },
+    ];
     if thorough {
-        v.push(Hs { outgoing: true, bits: vec![7, 80] });
-        v.push(Hs { outgoing: false, bits: vec![31, 128] });
+        v.push(Hs { outgoing: true, bits: vec![7, 80], downloader: false });
+        v.push(Hs { outgoing: false, bits: vec![31, 128], downloader: false });
     }
     v
 }
@@ -205,7 +241,7 @@ pub fn run(ctx: &Ctx) -> Outcome {
                 core::private_cwd("bfs", &format!("w{}", w))
             },
             |dir, _, b| {
-                let s = Hs { outgoing, bits: vec![*b] };
+                let s = Hs { outgoing, bits: vec![*b], downloader: false };
                 let r = explore::replay(&s, dir, &[(format!("HS:hash{}", b), vec![])], false);
                 r.violation
             },
@@ -213,7 +249,7 @@ pub fn run(ctx: &Ctx) -> Outcome {
         for (b, v) in bits.iter().zip(res) {
             bit_runs += 1;
             if let Some((class, why)) = v {
-                let s = Hs { outgoing, bits: vec![*b] };
+                let s = Hs { outgoing, bits: vec![*b], downloader: false };
                 ctx.violation(class, format!("[{}] {}", s.name(), why), json!({"scenario": s.name(), "history": [format!("HS:hash{}", b)]}));
             }
         }
@@ -229,15 +265,16 @@ pub fn run(ctx: &Ctx) -> Outcome {
     explore::stats_outcome(&total, &mut o);
     o.set("scenarios", Value::Array(per));
     o.set("single_bit_hash_corruptions", json!(bit_runs));
-    o.set("rule", json!(format!("BFS to depth {} over the alphabet [HS:good, HS:hash0, HS:hash159, HS:otherid (outgoing only), HS:pstr, HS:pstrlen, HS:trunc, {}] on an outgoing and an incoming connection, manager owning both pieces; a state is the canonical snapshot of manager + connection task + files + monitor; histories end when the connection task ended. Plus all 160 single-bit corruptions of the info-hash as first message, both directions. Plus three full-session scenarios borrowed from C02 (identity-*): a re-announce lists a connected address followed by a new one, whose peer presents its own announced id (must stay connected) or the id of the connected peer (must be dropped); a host re-listed under a new id.", depth, PLAIN.join(", "))));
+    o.set("rule", json!(format!("BFS to depth {} over the alphabet [HS:good, HS:hash0, HS:hash159, HS:otherid (outgoing only), HS:pstr, HS:pstrlen, HS:trunc, {}] on an outgoing and an incoming connection, manager owning both pieces; -while-downloading variants: the client owns nothing, a second connection D (honest seeder) completes pieces at any point (event Dp, so the manager announces them to every connection task) while the connection under test sends good / corrupted handshakes, KeepAlive, Interested, Have; a state is the canonical snapshot of manager + connection task + files + monitor; histories end when the connection task ended. Plus all 160 single-bit corruptions of the info-hash as first message, both directions. Plus three full-session scenarios borrowed from C02 (identity-*): a re-announce lists a connected address followed by a new one, whose peer presents its own announced id (must stay connected) or the id of the connected peer (must be dropped); a host re-listed under a new id.", depth, PLAIN.join(", "))));
     o.assume("a truncated handshake followed by other bytes is undecodable input (C06's subject); after it nothing is demanded here except (2) and (4)");
     o
 }
 
 pub fn parse_name(name: &str) -> Hs {
     let outgoing = name.contains("outgoing");
-    let bits: Vec<usize> = name.split("bits[").nth(1).unwrap().trim_end_matches(']').split(", ").filter(|s| !s.is_empty()).map(|s| s.parse().unwrap()).collect();
-    Hs { outgoing, bits }
+    let inner = name.split("bits[").nth(1).unwrap().split(']').next().unwrap();
+    let bits: Vec<usize> = inner.split(", ").filter(|s| !s.is_empty()).map(|s| s.parse().unwrap()).collect();
+    Hs { outgoing, bits, downloader: name.contains("while-downloading") }
 }
 
 pub fn replay(_ctx: &Ctx, r: &Value) -> i32 {
